@@ -30,18 +30,6 @@ Proof.
   apply IH. destruct t as [|[u e] t']; cbn in *; auto. lia.
 Qed.
 
-Lemma head_above_add x y n l : x < y -> head_above x l -> head_above x (add_term y n l).
-Proof.
-  intros Hxy Hl. destruct l as [|[z c] t]; cbn [add_term].
-  - destruct (n =? 0); cbn; auto.
-  - cbn in Hl. destruct (y <? z); [destruct (n =? 0); cbn; auto|].
-    destruct (y =? z) eqn:E.
-    + apply Z.eqb_eq in E. subst z. destruct (c + n =? 0); cbn; auto.
-      (* erased: the next head is above y *)
-      destruct t as [|[u e] t']; cbn; auto. 
-      (* need wf for this; handled in add_term_wf *) 
-Abort.
-
 Lemma add_term_wf x n l : wf_terms l -> wf_terms (add_term x n l) /\
   (forall lo, lo < x -> head_above lo l -> head_above lo (add_term x n l)).
 Proof.
@@ -143,11 +131,11 @@ Proof. induction l as [|[y c] t IH]; cbn [map eval_terms fst snd]; lia. Qed.
 
 Theorem eval_le_const s n : eval s (le_const n) = n.              Proof. reflexivity. Qed.
 Theorem eval_le_zero s : eval s le_zero = 0.                      Proof. reflexivity. Qed.
-Theorem eval_le_var s x : eval s (le_var x) = s x.                Proof. unfold eval; cbn; lia. Qed.
+Theorem eval_le_var s x : eval s (le_var x) = s x.                Proof. unfold eval; cbn [le_var le_addk le_subk lterms lcst eval_terms]; lia. Qed.
 Theorem eval_le_term s n x : eval s (le_term n x) = n * s x.
 Proof. unfold eval, le_term. cbn [lterms lcst]. destruct (n =? 0) eqn:E; cbn [eval_terms]; [apply Z.eqb_eq in E; subst|]; lia. Qed.
-Theorem eval_le_addk s e n : eval s (le_addk e n) = eval s e + n.  Proof. unfold eval; cbn; lia. Qed.
-Theorem eval_le_subk s e n : eval s (le_subk e n) = eval s e - n.  Proof. unfold eval; cbn; lia. Qed.
+Theorem eval_le_addk s e n : eval s (le_addk e n) = eval s e + n.  Proof. unfold eval; cbn [le_var le_addk le_subk lterms lcst eval_terms]; lia. Qed.
+Theorem eval_le_subk s e n : eval s (le_subk e n) = eval s e - n.  Proof. unfold eval; cbn [le_var le_addk le_subk lterms lcst eval_terms]; lia. Qed.
 Theorem eval_le_addv s e x : eval s (le_addv e x) = eval s e + s x.
 Proof. unfold eval, le_addv. cbn [lterms lcst]. rewrite eval_add_term. lia. Qed.
 Theorem eval_le_subv s e x : eval s (le_subv e x) = eval s e - s x.
@@ -165,7 +153,9 @@ Qed.
 Lemma eval_scale_terms s n l : eval_terms s (scale_terms n l) = n * eval_terms s l.
 Proof.
   induction l as [|[y c] t IH]; cbn [scale_terms eval_terms]; [lia|].
-  destruct (n * c =? 0) eqn:E; cbn [eval_terms]; rewrite IH; [apply Z.eqb_eq in E; nia | lia].
+  destruct (n * c =? 0) eqn:E; cbn [eval_terms]; rewrite IH; [apply Z.eqb_eq in E | ring].
+  replace (n * (c * s y + eval_terms s t)) with (n * c * s y + n * eval_terms s t) by ring.
+  rewrite E. lia.
 Qed.
 Theorem eval_le_scale s n e : eval s (le_scale n e) = n * eval s e.
 Proof.
@@ -206,19 +196,19 @@ Lemma lookup_add_term x y n l : wf_terms l ->
   lookup x (add_term y n l) = lookup x l + (if x =? y then n else 0).
 Proof.
   intros Hw. induction Hw as [|z d t Hd Hh Hw IH]; cbn [add_term lookup].
-  - destruct (n =? 0) eqn:En; cbn [lookup]; destruct (x =? y); try lia.
-    apply Z.eqb_eq in En. lia.
+  - destruct (n =? 0) eqn:En; cbn [lookup]; destruct (x =? y); try apply Z.eqb_eq in En; lia.
   - destruct (y <? z) eqn:E1.
     + apply Z.ltb_lt in E1. destruct (n =? 0) eqn:En; cbn [lookup].
       * apply Z.eqb_eq in En. subst n. destruct (x =? y); lia.
       * destruct (x =? y) eqn:Exy; [|lia]. apply Z.eqb_eq in Exy. subst y.
         replace (x =? z) with false by (symmetry; apply Z.eqb_neq; lia).
-        rewrite (lookup_above x t); auto; [lia|].
-        destruct t as [|[u e] t']; cbn in *; auto. lia.
+        assert (Hz : lookup x t = 0).
+        { apply lookup_above; auto. destruct t as [|[u e] t']; cbn in *; auto. lia. }
+        rewrite Hz. lia.
     + apply Z.ltb_ge in E1. destruct (y =? z) eqn:E2.
       * apply Z.eqb_eq in E2. subst z. destruct (d + n =? 0) eqn:Er; cbn [lookup].
         -- apply Z.eqb_eq in Er. destruct (x =? y) eqn:Exy; [|lia].
-           apply Z.eqb_eq in Exy. subst y. rewrite (lookup_above x t); auto. lia.
+           apply Z.eqb_eq in Exy. subst y. rewrite (lookup_above x t) by auto. lia.
         -- destruct (x =? y); lia.
       * apply Z.eqb_neq in E2. cbn [lookup]. destruct (x =? z) eqn:Exz.
         -- apply Z.eqb_eq in Exz. subst z.
@@ -252,17 +242,17 @@ Proof.
   rewrite (lookup_fold_add x Z.opp) by auto.
   destruct (lookup x (lterms e2) =? 0) eqn:E; [apply Z.eqb_eq in E|]; lia.
 Qed.
-Lemma lookup_scale x n l : lookup x (scale_terms n l) = n * lookup x l.
+Lemma lookup_scale x n l : wf_terms l -> lookup x (scale_terms n l) = n * lookup x l.
 Proof.
-  induction l as [|[y c] t IH]; cbn [scale_terms lookup]; [lia|].
-  destruct (n * c =? 0) eqn:E; cbn [lookup]; destruct (x =? y); auto.
-  apply Z.eqb_eq in E. lia.
+  intros Hw. induction Hw as [|y c t Hc Hh Hw IH]; cbn [scale_terms lookup]; [lia|].
+  destruct (n * c =? 0) eqn:E; cbn [lookup]; destruct (x =? y) eqn:Exy; auto.
+  apply Z.eqb_eq in E, Exy. subst y. rewrite IH, (lookup_above x t) by auto. lia.
 Qed.
-Theorem coef_le_scale n e x : le_coef (le_scale n e) x = n * le_coef e x.
+Theorem coef_le_scale n e x : wf e -> le_coef (le_scale n e) x = n * le_coef e x.
 Proof.
-  unfold le_coef, le_scale. destruct (n =? 0) eqn:E.
+  intros Hw. unfold le_coef, le_scale. destruct (n =? 0) eqn:E.
   - apply Z.eqb_eq in E. subst. cbn. lia.
-  - cbn [lterms]. apply lookup_scale.
+  - cbn [lterms]. apply lookup_scale; auto.
 Qed.
 
 (* ---------------------------------------------------------------- equality *)
@@ -355,7 +345,8 @@ Proof.
   destruct (k =? 0) eqn:Ek; cbn [andb]; [|discriminate].
   destruct (Z.of_nat (length ((y, c) :: t)) =? 1) eqn:El; [|discriminate].
   destruct (c =? 1) eqn:Ec; [|discriminate]. intros [= <-] s.
-  apply Z.eqb_eq in Ek, El, Ec. subst. destruct t; [|cbn in El; lia]. unfold eval. cbn. lia.
+  apply Z.eqb_eq in Ek, El, Ec. subst. destruct t; [|cbn [length] in El; lia].
+  unfold eval. cbn [lterms lcst eval_terms]. lia.
 Qed.
 
 Example wf_example :
